@@ -368,3 +368,77 @@ def gen_carriers(rng, bands, n, pmin_dbm=-30.0, pmax_dbm=10.0, uniform=False):
             f += slot + rng.choice([0, 0, 0, 2 * G, 8 * G, 40 * G])
             k += 1
     return out
+
+
+# ---------------------------------------------------------------------------------------------------------------------
+# path cases shared by C01 / C02 / C07
+# ---------------------------------------------------------------------------------------------------------------------
+EX_QUICK = ['edfa', 'mesh', 'fused', 'multiband', 'raman']
+EX_THOROUGH = EX_QUICK + ['openroadm5', 'openroadm4']
+
+
+def gen_path_case(rng, tier, shuffle=False):
+    exs = EX_QUICK if tier == 'quick' else EX_THOROUGH
+    k = rng.random()
+    sim = None
+    if k < 0.5:
+        net = {'desc': gen_topology(rng, max_roadms=3 if tier == 'quick' else 4, raman=rng.random() < 0.12)}
+        if any(sp.get('raman') for h in net['desc']['hops'] for sp in h):
+            sim = 'raman'
+        n = len(net['desc']['roadms'])
+        a, b = (0, 1) if sim else rng.sample(range(n), 2)
+        src, dst = f'trx {a}', f'trx {b}'
+    else:
+        name = rng.choice(exs)
+        if name == 'raman' and rng.random() < 0.6:
+            name = 'mesh'
+        net = name
+        src = dst = None   # chosen from the example's transceivers by index
+        if name == 'raman':
+            sim = 'raman_ggn' if (tier == 'thorough' and rng.random() < 0.3) else 'raman'
+    nch = rng.choice([2, 4, 8, 12, 20]) if sim else rng.choice([1, 2, 5, 12, 24, 40 if tier == 'quick' else 96])
+    return {'kind': 'shuffle' if shuffle else 'path', 'net': net, 'src': src, 'dst': dst, 'pick': [rng.random(), rng.random()],
+            'sim': sim, 'uniform_grid': (not shuffle) and rng.random() < 0.2, 'nch': nch,
+            'cseed': rng.getrandbits(32), 'pmax_dbm': 10.0 if rng.random() < 0.3 else 3.0,
+            'order': [rng.random() for _ in range(64)] if shuffle else None}
+
+
+
+def setup_path(case):
+    """(equipment, path, request, sim-params dict) of a path/shuffle case"""
+    import random
+    from gnpy.topology.request import find_elements_common_range
+    if isinstance(case['net'], str):
+        eq, net, trx = example(case['net'])
+        a = int(case['pick'][0] * len(trx))
+        b = int(case['pick'][1] * (len(trx) - 1))
+        if b >= a:
+            b += 1
+        src, dst = trx[a], trx[b]
+    else:
+        eq, net = designed_from_desc(case['net']['desc'])
+        src, dst = case['src'], case['dst']
+    path, req = path_request(eq, net, src, dst)
+    if not path:     # one-directional example (edfa): take the other direction
+        src, dst = dst, src
+        path, req = path_request(eq, net, src, dst)
+    cr = find_elements_common_range(path, eq)
+    bands = [(int(b['f_min']), int(b['f_max'])) for b in cr]
+    car = []
+    if not case['uniform_grid']:
+        if not isinstance(case['net'], str) and any(r and r['variety'] for r in case['net']['desc']['roadms']):
+            # the 'detailed_impairments' ROADM of the stock library defines its impairments for 191.3-196.1 THz only
+            bands = [(max(lo, 191_300_000_000_000), min(hi, 196_100_000_000_000)) for lo, hi in bands]
+        car = gen_carriers(random.Random(case['cseed']), bands, case['nch'], pmax_dbm=case['pmax_dbm'])
+        if car:
+            path, req = path_request(eq, net, src, dst, car)
+    if not car:
+        # a uniform grid of about nch channels inside the first common band
+        si = eq['SI']['default']
+        lo, hi = bands[-1]
+        req.f_min = max(si.f_min, float(lo))
+        req.f_max = min(si.f_max, float(hi), req.f_min + (case['nch'] + 0.5) * si.spacing)
+    sim = {None: None, 'raman': RAMAN_SIM, 'raman_ggn': RAMAN_SIM_GGN}[case['sim']]
+    return eq, path, req, sim
+
+
